@@ -40,10 +40,17 @@ def finite_tree(rng, fs, top):
         return {'t': 'fixed', 'fs': fs, 'n': rng.randint(0, 600), 'seed': rng.randint(0, 99)}
     if top == 'repeat':
         return G.repeat(rng, fs)
+    if top == 'fixedlike':
+        return G.fixed_like(rng, fs)
     raise ValueError(top)
 
 
 TOPS = ['gate', 'env', 'cos2', 'fixed', 'repeat']
+ONES = {'t': 'silence', 'fill': 1}
+
+
+def is_ones(node):
+    return node.get('t') == 'silence' and node.get('fill') == 1 and type(node.get('fill')) is int
 
 
 class C09(Spec):
@@ -63,7 +70,11 @@ class C09(Spec):
     RULE = ('gated / enveloped (every window, rise None included) / fixed / repeated stimuli over constant-one and other '
             'carriers, fs from the seven rates, times on and off the sample grid and at .5 ties, drawn along random and '
             'boundary partitions that run past the end, bookkeeping read after every draw; rejected rise times; '
-            'non-trivial = history with >= 2 chunks that crosses the end of the stimulus.')
+            'non-trivial = history with >= 2 chunks that crosses the end of the stimulus. Hardening block (kinds tagged '
+            '/var /hist /scale /many): constructor spellings, value representations and options as in C01, the '
+            'FixedWaveform subclasses (n_samples = array length), IIR/FIR noise carriers, a repeat of a repeat; reset() '
+            'before any draw / mid-way / after completion / twice with the bookkeeping re-read, get_samples_remaining(), '
+            'NumPy integer chunk sizes, the caller overwriting the chunks; stimuli of 2^16..2^20 samples.')
     exhaustive_note = {
         'thorough': 'all 2^(N-1) partitions of N = total+3 <= 12 for every (start, duration, rise) <= (2, 6, 3) gate and '
                     'cosine-squared envelope over a constant-one carrier',
@@ -93,6 +104,7 @@ class C09(Spec):
             fs = rng.choice(S.FS_LIST)
             e = G.env(rng, fs, {'t': 'silence', 'fill': 1}, span=300, valid=False)
             yield {'kind': 'finite', 'cls': 'reject', 'tree': e, 'chunks': [rng.randint(1, 50), rng.randint(1, 50)]}
+        yield from self.hardening_cases(rng, tier)
         if tier == 'thorough':
             fs = 1000.0
             ones = {'t': 'silence', 'fill': 1}
@@ -106,6 +118,82 @@ class C09(Spec):
                         yield {'kind': 'exh', 'cls': 'env', 'N': min(lb + dur + 3, 12),
                                'tree': {'t': 'env', 'window': 'cosine-squared', 'fs': fs, 'start': lb / fs,
                                         'dur': dur / fs, 'rise': None if rise is None else rise / fs, 'in': ones}}
+
+    # ---- HARDENING.md: input shapes and histories beyond the main generators ------------------------
+    def hardening_cases(self, rng, tier):
+        quick = tier == 'quick'
+
+        def history(tree, total, past=(0, 1, 2, 17, 300)):
+            n = max(total + rng.choice(past), 1)
+            marks = S.marks_of(tree) + [total]
+            chunks = rng.chunks(n, 8) if rng.random() < 0.4 else S.boundary_chunks(rng, n, marks)
+            if rng.random() < 0.3:
+                chunks += [rng.randint(1, 50) for _ in range(rng.randint(1, 3))]
+            return chunks
+
+        # items 1, 2: spellings, representations, options; the FixedWaveform subclasses; noise carriers; nested repeats
+        for top in TOPS + ['fixedlike', 'noisecar', 'int', 'rrepeat']:
+            m = {'noisecar': 6 if quick else 40, 'int': 30 if quick else 100}.get(top, 60 if quick else 400)
+            for _ in range(m):
+                fs = rng.choice(S.FS_LIST)
+                if top == 'noisecar':
+                    car = G.noise_leaf(rng, rng.choice(['blnoise', 'firnoise', 'shaped']))
+                    tree = rng.choice([G.gate, G.env])(rng, car['fs'], car)
+                elif top == 'int':
+                    tree = G.int_tree(rng, rng.choice(['gate', 'env']))
+                elif top == 'rrepeat':
+                    tree = G.repeat(rng, fs)
+                    tot = S.total_of(tree)
+                    tree = {'t': 'repeat', 'fs': fs, 'n': rng.randint(0, 3), 'skip': rng.randint(0, 1),
+                            'rate': fs / (tot + rng.randint(0, 3) + 1), 'delay': rng.randint(0, 1) / fs, 'in': tree}
+                else:
+                    tree = finite_tree(rng, fs, top)
+                if top != 'int' and rng.random() < 0.8:
+                    tree = G.vary(rng, tree, transform=False)
+                    if top == 'noisecar' and tree['in']['t'] == 'blnoise':
+                        # filter designs the carrier's own constructor refuses ("Unstable filter coefficients") say
+                        # nothing about the finite stimulus
+                        tree['in'].update(rolloff=1, pass_att=1, stop_att=80)
+                yield {'kind': 'finite', 'cls': top, 'tree': tree, 'chunks': history(tree, S.total_of(tree)), 'tag': 'var'}
+        # items 5, 6: reset and re-use (before any draw, mid-way, after completion, twice), get_samples_remaining(),
+        # NumPy integer chunk sizes, the caller overwriting the chunks it received
+        for top in TOPS + ['fixedlike']:
+            for _ in range(60 if quick else 400):
+                fs = rng.choice(S.FS_LIST)
+                tree = finite_tree(rng, fs, top)
+                if rng.random() < 0.3:
+                    tree = G.vary(rng, tree, transform=False)
+                total = S.total_of(tree)
+                c = {'kind': 'finite', 'cls': top, 'tree': tree, 'tag': 'hist'}
+                if total > 1 and rng.random() < 0.4:
+                    n = rng.randint(1, total - 1)
+                    c['gsr'] = total - n
+                    c['chunks'] = rng.chunks(n, 5) if rng.random() < 0.5 else S.boundary_chunks(rng, n, S.marks_of(tree))
+                else:
+                    c['chunks'] = history(tree, total)
+                pre = []
+                for _ in range(rng.choice([0, 1, 1, 1, 2, 3])):
+                    k = rng.choice([0, 1, max(total - 1, 0), total, total + 7, rng.randint(0, total + 300)])
+                    pre.append(rng.chunks(k, 4) if k else [])
+                if pre:
+                    c['pre'] = pre
+                if rng.random() < 0.3:
+                    c['ntype'] = rng.choice(['i64', 'i32'])
+                if rng.random() < 0.4:
+                    c['mutate'] = True
+                yield c
+        # item 3: stimuli of 2^16 .. 2^20 samples; thousands of draws
+        for cls in ('gate', 'env', 'fixed', 'repeat'):
+            for _ in range(1 if quick else 4):
+                tree = G.big_tree(rng, cls)
+                if cls in ('gate', 'env') and rng.random() < 0.5:
+                    tree['in'] = dict(ONES)
+                yield {'kind': 'finite', 'cls': cls, 'tree': tree, 'tag': 'scale',
+                       'chunks': history(tree, S.total_of(tree), past=(1, 2, 70000))}
+        for top in rng.sample(TOPS, 2 if quick else 5):
+            tree = finite_tree(rng, rng.choice(S.FS_LIST), top)
+            yield {'kind': 'finite', 'cls': top, 'tree': tree, 'tag': 'many',
+                   'chunks': [rng.randint(1, 3) for _ in range(S.total_of(tree) // 2 + 20)]}
 
     def cases(self, rng, tier):
         self._calls += 1
@@ -123,13 +211,19 @@ class C09(Spec):
     # ---- lines ------------------------------------------------------------------------
     @staticmethod
     def histories(c):
+        """Chunk-size lists, each drawn from a fresh generator (exh: a new object per list; finite: one object,
+        `reset()` between the lists).  `gsr` = the count the last draw obtains through get_samples_remaining()."""
         if c['kind'] == 'exh':
             return list(S.all_partitions(c['N']))
-        return [c['chunks']]
+        return [list(h) for h in c.get('pre', [])] + [list(c['chunks']) + ([c['gsr']] if c.get('gsr') else [])]
 
     def model_lines(self, c):
         hs = self.histories(c)
-        if not G.model_applies(c['tree'], max(hs, key=len)):
+        if c['kind'] == 'exh':
+            ok = G.model_applies(c['tree'], max(hs, key=len))
+        else:
+            ok = all(G.model_applies(c['tree'], h) for h in hs)
+        if not ok:
             return []
         expr = S.Plan(c['tree']).expr
         out = []
@@ -139,20 +233,36 @@ class C09(Spec):
                 out += [f'next {n}', 'info']
         return out
 
+    ERRS = (ValueError, ZeroDivisionError)
+
     def run_real(self, c):
-        """Per history: ('err', name) or list of records (chunk | error name, info string)."""
+        """Per history: ('err', name) or list of records (chunk | error name, info string).  Optional case fields as
+        in C01.run_factory: `pre`, `gsr`, `ntype`, `mutate`."""
         res = []
-        for h in self.histories(c):
-            try:
-                f = S.build_real(c['tree'])
-            except (ValueError, ZeroDivisionError) as e:
-                res.append(('err', type(e).__name__))
-                continue
-            rec = [(None, fmt_info(f))]
-            for n in h:
+        f = None
+        hs = self.histories(c)
+        conv = G.NTYPES.get(c.get('ntype'), int)
+        for i, h in enumerate(hs):
+            if c['kind'] == 'exh' or i == 0:
                 try:
-                    x = np.array(f.next(n))
-                except (ValueError, ZeroDivisionError) as e:
+                    f = S.build_real(c['tree'])
+                except self.ERRS as e:
+                    if c['kind'] == 'exh':
+                        res.append(('err', type(e).__name__))
+                        continue
+                    return [('err', type(e).__name__) for _ in hs]
+            else:
+                f.reset()
+            rec = [(None, fmt_info(f))]
+            for j, n in enumerate(h):
+                rest = c['kind'] != 'exh' and bool(c.get('gsr')) and i == len(hs) - 1 and j == len(h) - 1
+                try:
+                    x = f.get_samples_remaining() if rest else f.next(conv(n))
+                    keep = np.array(x)
+                    if c.get('mutate'):
+                        G.scribble(x)
+                    x = keep
+                except self.ERRS as e:
                     x = type(e).__name__
                 rec.append((x, fmt_info(f)))
             res.append(rec)
@@ -173,6 +283,7 @@ class C09(Spec):
             return []
         mout = self.model_out(c, ml)
         plan = S.Plan(c['tree'])
+        plan.hint = max(sum(h) for h in self.histories(c))
         tol = S.FIR_TOL if S.is_fir(c['tree']) else 0.0
         out, j = [], 0
         for h, rec in zip(self.histories(c), res):
@@ -202,6 +313,9 @@ class C09(Spec):
             total = lb + dur
         elif t == 'fixed':
             lb, dur, total = 0, tree['n'], tree['n']
+        elif t in S.FIXED_LIKE:
+            total = S.fixed_len(tree)         # "or its array length"
+            lb, dur = 0, total
         else:
             total = (tree['n'] + tree['skip']) * int(round(fs / tree['rate']))
             lb, dur = 0, total
@@ -246,7 +360,7 @@ class C09(Spec):
             if np.any(y[outside] != 0):
                 i = int(k[outside][np.flatnonzero(y[outside] != 0)[0]])
                 return f'sample {i} outside [{lb}, {lb + dur}) is {y[i]!r} (history {h})'
-            if t == 'env' and tree['in'] == {'t': 'silence', 'fill': 1}:
+            if t == 'env' and is_ones(tree['in']):
                 from psiaudio import stim
                 from scipy import signal
                 w = S.window_name(tree)
@@ -267,7 +381,7 @@ class C09(Spec):
         return len(c['chunks']) >= 2 and sum(c['chunks']) > (S.total_of(c['tree']) or 0)
 
     def kind(self, c):
-        return c['kind'] + ':' + c['cls']
+        return c['kind'] + ':' + c['cls'] + ('/' + c['tag'] if c.get('tag') else '')
 
     def neighbours(self, c, rng):
         if c['kind'] != 'finite':
@@ -285,6 +399,14 @@ class C09(Spec):
             return
         ch = c['chunks']
         ones = {'t': 'silence', 'fill': 1}
+        for key in ('pre', 'gsr', 'mutate', 'ntype'):
+            if key in c:
+                yield {k: v for k, v in c.items() if k != key}
+        if c.get('pre'):
+            yield {**c, 'pre': c['pre'][1:]}
+            yield {**c, 'pre': [h[:-1] for h in c['pre']]}
+        if c.get('gsr'):
+            return
         if 'in' in c['tree'] and c['tree']['t'] != 'repeat' and c['tree']['in'] != ones:
             yield {**c, 'tree': {**c['tree'], 'in': ones}}
         for i in range(len(ch) - 1):
